@@ -187,6 +187,11 @@ func genLen(r *vlib.Rand, sp spec, big bool) int {
 	}
 	// cap on bytes and on the number of chunks (tiny chunk sizes)
 	capBytes := 3 << 20
+	if raceEnabled {
+		// the race detector slows the byte loops ~10x: smaller inputs (still
+		// >= 3*max for buzhash/rabin/default), the *-big strata keep full size
+		capBytes = 1<<20 + 1<<19 + 1<<17
+	}
 	if big {
 		capBytes = 6<<20 + 1<<19
 	}
@@ -650,17 +655,30 @@ func rejectCase(mode string) func(k *vlib.Case) {
 
 func run(c *vlib.Ctx) {
 	c.Rule("case = (spec string, input, 3-5 readers). Specs from a grammar over every documented form: ''/default, size-N, rabin, rabin-N (N>=48 in clean strata; N<48 only in stratum rabin-lt48), rabin-min-avg-max with/without labels, buzhash, with N on a boundary grid (1,15..17,47,48,ChunkSizeLimit-1/+0, rabin-1397930/1) or random; promised min/max computed by the harness from the documented form. Inputs random/constant/periodic/random+runs/text with lengths 0,1,min±1,max±1,k*max±1,3max..8max (<=3 MiB, big strata <=6.5 MiB). Readers: plain, 1-byte, random short reads, tiny-then-big, io.EOF together with the last bytes, interspersed (0,nil). distinct = FNV of spec+input descriptor+reader list+observed boundaries; non-trivial = input >= 3*max of the spec and >=2 fragmentations ran to completion (reject stratum: parser returned).")
-	c.Cases("size", c.N(150, 1200), oneCase("size", false))
-	c.Cases("default", c.N(16, 120), oneCase("default", false))
-	c.Cases("rabin", c.N(16, 120), oneCase("rabin", false))
-	c.Cases("rabin-avg", c.N(130, 1000), oneCase("rabin-avg", false))
-	c.Cases("rabin-mam", c.N(150, 1200), oneCase("rabin-mam", false))
-	c.Cases("buzhash", c.N(40, 300), oneCase("buzhash", false))
-	c.Cases("size-big", c.N(8, 60), oneCase("size", true))
-	c.Cases("rabin-avg-big", c.N(8, 60), oneCase("rabin-avg", true))
-	c.Cases("rabin-mam-big", c.N(8, 60), oneCase("rabin-mam", true))
-	c.Cases("rabin-lt48", c.N(24, 120), oneCase("rabin-lt48", false))
-	c.Cases("reject", c.N(60, 600), rejectCase("grid"))
-	c.Cases("reject-limit", c.N(24, 120), rejectCase("limit"))
-	c.Cases("reject-overflow", c.N(4, 12), rejectCase("overflow"))
+	// thorough counts are for a build without -race; the race detector makes
+	// this single-goroutine byte-loop workload ~40x more expensive (sync.Pool is
+	// disabled, 512 KiB buffers are re-allocated per splitter), so under -race
+	// the thorough tier runs 1/8 of them (never fewer than quick).
+	n := func(q, t int) int {
+		if raceEnabled {
+			t /= 8
+			if t < q {
+				t = q
+			}
+		}
+		return c.N(q, t)
+	}
+	c.Cases("size", n(150, 1300), oneCase("size", false))
+	c.Cases("default", n(16, 150), oneCase("default", false))
+	c.Cases("rabin", n(16, 150), oneCase("rabin", false))
+	c.Cases("rabin-avg", n(130, 1300), oneCase("rabin-avg", false))
+	c.Cases("rabin-mam", n(150, 1500), oneCase("rabin-mam", false))
+	c.Cases("buzhash", n(40, 400), oneCase("buzhash", false))
+	c.Cases("size-big", n(8, 80), oneCase("size", true))
+	c.Cases("rabin-avg-big", n(8, 80), oneCase("rabin-avg", true))
+	c.Cases("rabin-mam-big", n(8, 80), oneCase("rabin-mam", true))
+	c.Cases("rabin-lt48", n(24, 150), oneCase("rabin-lt48", false))
+	c.Cases("reject", n(60, 600), rejectCase("grid"))
+	c.Cases("reject-limit", n(24, 60), rejectCase("limit"))
+	c.Cases("reject-overflow", n(4, 12), rejectCase("overflow"))
 }
